@@ -13,6 +13,7 @@ import (
 	"strings"
 	"sync"
 	"sync/atomic"
+	"time"
 
 	"github.com/pkg/sftp"
 )
@@ -113,6 +114,7 @@ func runC15(c *Ctx) {
 		return
 	}
 	defer os.RemoveAll(dir)
+	hangs := 0
 	for it := 0; it < n; it++ {
 		be := backends[it%4]
 		initial := patternBytes(it, size)
@@ -196,7 +198,7 @@ func runC15(c *Ctx) {
 						b := make([]byte, p.ln)
 						var n int
 						n, err = f.ReadAt(b, int64(p.off))
-						h.data = b[:n]
+						h.data = b[:clampLen(n, len(b))]
 						if n != p.ln {
 							err = fmt.Errorf("short read %d of %d: %v", n, p.ln, err)
 						}
@@ -221,7 +223,20 @@ func runC15(c *Ctx) {
 			}(gi)
 		}
 		close(start)
-		wg.Wait()
+		if !cctWait(&wg, 15*time.Second) {
+			// an operation never returned: nothing about this history can be decided; the client and its goroutines are abandoned
+			hangs++
+			nn := c.Case("lin", kvh("f0", initial), kvs("h", "-"), kvs("be", be), kvi("g", g), kvi("nh", nh))
+			c.NT(nn)
+			c.Oracle(nn, false, "an operation on the shared Client did not return within 15 s")
+			pr.cliConn.Close()
+			pr.srvConn.Close()
+			if hangs >= 3 {
+				c.Diag("c15: stopped after %d hanging histories", hangs)
+				return
+			}
+			continue
+		}
 		for _, f := range files {
 			f.Close()
 		}
